@@ -381,6 +381,46 @@ def string_enums(rep):
                     lo = 'rejected' if classify_exc(e) == 'invalid' else 'error'
                 events.append({'ev': 'probe', 'enum': vec.__name__, 'code': text, 'known': False, 'outcome': 'invalid', 'listoutcome': lo})
                 rep.case('%s|%s' % (vec.__name__, text))
+    # a list that holds exactly ONE known code (what a peer with one algorithm sends): accepted, that member, same bytes again -
+    # for every list class over coded enumerations, whatever the widths of its length prefix and of its codes
+    from cryptoparser.common.base import ArrayBase
+    for vec in corpus.concrete_parsables():
+        if not issubclass(vec, ArrayBase):
+            continue
+        try:
+            p = vec.get_param()
+            factory = p.item_class
+            members = list(factory.get_enum_class())
+            codes = [(m, code_of(m)) for m in members if isinstance(code_of(m), int)]
+            width = len(bytes(members[0].compose())) if hasattr(members[0], 'compose') else factory.get_byte_num()
+        except Exception:  # pylint: disable=broad-except
+            continue
+        if not codes or getattr(p, 'min_byte_num', 0) > width or getattr(p, 'item_num_size', 0) not in (1, 2, 3, 4):
+            continue
+        for m, c in (codes[0], codes[-1]):
+            data = int(width).to_bytes(p.item_num_size, 'big') + int(c).to_bytes(width, 'big')
+            try:
+                v = vec.parse_exact_size(data)
+                items = list(v)
+                lo = 'dropped' if len(items) != 1 else 'redirected' if items[0] is not m else 'reencoded' if bytes(v.compose()) != data else 'ok'
+            except Exception as e:  # pylint: disable=broad-except
+                lo = 'error'          # a complete list of one known code: no refusal is right
+            events.append({'ev': 'probe', 'enum': vec.__name__, 'code': 'single:%s' % getattr(m, 'name', c), 'known': True, 'outcome': 'member', 'listoutcome': lo})
+            rep.case('%s|single|%s' % (vec.__name__, c))
+    # an item of unknown type that is cut off by the end of its list (declares more bytes than the list holds): refused, never
+    # silently left out with everything behind it
+    from cryptoparser.tls import extension as tls_ext
+    for vec in (tls_ext.TlsExtensionsClient, tls_ext.TlsExtensionsServer):
+        for unknown in (b'\xfa\xfa', b'\x12\x34', b'\x00\x0f'):
+            body = b'\xff\x01\x00\x01\x00' + unknown + b'\x00\x05\x01'
+            data = len(body).to_bytes(2, 'big') + body
+            try:
+                v = vec.parse_exact_size(data)
+                lo = 'dropped' if len(list(v)) != 2 or bytes(v.compose()) != data else 'ok'
+            except Exception as e:  # pylint: disable=broad-except
+                lo = 'rejected' if classify_exc(e) in ('invalid', 'error:NotEnoughData', 'error:TooMuchData') else 'error'
+            events.append({'ev': 'probe', 'enum': vec.__name__, 'code': 'cut-off:' + unknown.hex(), 'known': False, 'outcome': 'invalid', 'listoutcome': lo})
+            rep.case('%s|cut-off|%s' % (vec.__name__, unknown.hex()))
     return events
 
 
